@@ -1,5 +1,5 @@
 """property id -> rules"""
-from rules import task_constraints, tasks, optional, logic, resources, resource_constraints, completeness
+from rules import task_constraints, tasks, optional, logic, resources, resource_constraints, completeness, indicators
 from sa.selftest import self_test_rule
 
 NOTES = ("Every check decides structural clauses (necessary conditions) of its property from /repo's source as parsed on "
@@ -8,6 +8,24 @@ NOTES = ("Every check decides structural clauses (necessary conditions) of its p
 NOT_APPLICABLE = {}
 
 PROPERTIES = {
+    "C08": {
+        "rules": indicators.RULES,
+        "thorough": [self_test_rule("C08")],
+        "level_text": "For each indicator class (and each indicator built inside an objective) and each configuration, the "
+                      "expression equated with the indicator variable is reconstructed and compared, in a deep canonical form "
+                      "(canonical comparison atoms, sorted linear forms, alpha-normalised sums), with the documented definition: "
+                      "utilisation = (sum of busy lengths * 100) / horizon on both horizon branches, tasks assigned, tardiness, "
+                      "earliness, tardy count, max lateness and buffer extrema through get_maximum/get_minimum (themselves "
+                      "checked), cost (constant part + trapezoid/2 with the cumulative fan-out), idle time over sorted copies, "
+                      "flow time / weighted completion / weighted start. Also: no python truncation before scaling, distinct "
+                      "default names, the value stored in the solution is the model value of that indicator's variable under "
+                      "that indicator's name, IndicatorTarget/Bounds.",
+        "level_note": "User expressions and GeneralFunction costs are opaque terms (only 'emitted as written' is decided). "
+                      "ObjectiveMinimizeFlowtimeSingleResource's min/max encoding is not specified by the docs and is only "
+                      "covered by the inertness analysis (C06). Integer division is z3's. Trusted: z3, pydantic.",
+        "explanation": "Static analysis of indicator.py / objective.py / indicator_constraint.py / util.py / solver.py: "
+                       "canonical-form comparison of each defining expression with its specification row.",
+    },
     "C05": {
         "rules": completeness.RULES,
         "thorough": [self_test_rule("C05")],
